@@ -74,6 +74,13 @@ def evaluate_cases(pid, cases, ctx, k_all_kinds=()):
                backend_disagreement=[], log='')
     if not cases:
         return res
+    # the wire carries integers only: a case whose encoding contains anything else (the implementation produced a
+    # value outside the model's domain, e.g. a fractional CPU count) cannot agree with the model - it is a mismatch
+    # of its own and is replaced by an empty probe so that the indices stay aligned
+    odd = [i for i, c in enumerate(cases)
+           if not all(type(x) is int for x in c['inp']) or not all(type(x) is int for x in c['obs'])]
+    for i in odd:
+        cases[i] = dict(cases[i], inp=[], obs=[-3], outside_domain=True)
     xs = C.run_x([(c['kind'], c['inp']) for c in cases])
     for i, c in enumerate(cases):
         adopt_float_slots(c, xs[i])
@@ -148,9 +155,14 @@ def run_check(pid, tier):
     kall = getattr(mod, 'K_ALL_KINDS', ())
     if callable(kall):
         kall = kall(ctx)
-    ev = evaluate_cases(pid, cases, ctx, kall) if ok else \
-        dict(n=0, x_mismatch=[], k_checked=0, k_mismatch=[], k_shards=0, answers={},
-             backend_disagreement=[], log='')
+    empty_ev = dict(n=0, x_mismatch=[], k_checked=0, k_mismatch=[], k_shards=0, answers={},
+                    backend_disagreement=[], log='')
+    try:
+        ev = evaluate_cases(pid, cases, ctx, kall) if ok else empty_ev
+    except Exception:
+        traceback.print_exc()
+        failed.append(('harness', 'evaluation of the cases raised', traceback.format_exc()[-1500:]))
+        ev = empty_ev
     obligations += ev['k_shards']
     if ev['backend_disagreement']:
         i = ev['backend_disagreement'][0]
